@@ -304,7 +304,7 @@ LEVEL_TEXT = ("collapsePath: for every absolute path (any number and length of c
               "(C18_collapse). path_search: for every addressed table the three options return exactly the children whose names "
               "start with the needle, paired with their metadata bytes - in table order / as a sorted permutation / as the sorted "
               "permutation of the names not below a 'name/' entry, duplicates kept (C18_search_*), and the reply is the C01 "
-              "encoding of those pairs (C18_reply_wellformed). Lookup of walked addresses: computed instances only; in general "
-              "decided by the tie and the Spec oracle on every run (C18_lookup is not proved).")
+              "encoding of those pairs (C18_reply_wellformed). Lookup: every address the walk reports is found by apropos, for names "
+              "of the documented shape whose siblings answer disjoint sets of paths (C18_lookup_partial).")
 LEVEL_NOTE = ("Trusted: Coq kernel, extraction, OCaml driver, harness, generator. The C++ code is modelled by hand "
               "(coq/Ports/PathModel.v, NameModel.v) and related to the model only by the correspondence run.")
